@@ -1,4 +1,5 @@
 import PyYetiVerif.Model.SuCoef
+import PyYetiVerif.Model.SuCoefCoupled
 import PyYetiVerif.Model.SuPartition
 /-! Line protocol for C01.  Floats travel as decimal `UInt64` bit patterns.
 
@@ -10,6 +11,14 @@ import PyYetiVerif.Model.SuPartition
 `sys <order> <h> <n> <mkind: none|vec> [m × n] <b × n> <k × n> <rb: n | c i…> <rf: c i…>
      <static 0|1> <d0: n | y d0 × n> <v0: n | y v0 × n> <nt> <force: n*nt row-major>`
       -> `ok <d n*nt> <v n*nt> <a n*nt>` | `err:partition` | `err:index`
+`partc <n> <rf: c i1 … ic> <k: nr*nr row-major> <b: nr*nr row-major>`   (coupled auto-detection, `nr = n - c`)
+      -> as `part`
+`cpl <order> <h> <n> <N> <lam: 2N> <urV: 2nN> <urD: 2nN> <invV: 2Nn> <invD: 2Nn> <d0: n> <v0: n> <nt>
+     <imf: n*nt row-major>`   (complex numbers as re im pairs, matrices row-major)
+      -> `ok <d n*nt> <v n*nt>`   (`coupledRun`: real recovery after `delconj`)
+`rbrun <order> <h> <nt> <d0> <v0> <rbforce: nt>` -> `ok <d nt> <v nt>`   (`rbStep` loop, one mode)
+`exp2 <order> <n> <E: 2n*2n> <P: 2n*n> <Q: 2n*n | absent for order 0> <d0: n> <v0: n> <nt> <imf: n*nt>`
+      -> `ok <d n*nt> <v n*nt>`   (`runExp`)
 anything else -> `bad-op`. -/
 open PyYetiVerif.SuCoef PyYetiVerif.SuPartition
 
@@ -113,6 +122,122 @@ def doPart (ws : List String) : Option String := do
 
 def getF (l : List Float) (i : Nat) : Float := l.getD i 0
 
+/-- `_make_rb_el` for a coupled system with `rb=None`: the non-rf `k`, `b` are given -/
+def doPartC (ws : List String) : Option String := do
+  match ws with
+  | ns :: rest =>
+    let n ← ns.toNat?
+    let (rf, rest) ← readIdx rest
+    let nr := (nonrf n rf).length
+    let (kl, rest) ← takeN fbits (nr * nr) rest
+    let (bl, rest) ← takeN fbits (nr * nr) rest
+    if !rest.isEmpty then none
+    let rows (l : List Float) : List (List Float) := (List.range nr).map fun i => (l.drop (i * nr)).take nr
+    let p := mkPart n none rf (smallCoupled Float.abs 0 (rows kl) (rows bl) 0.005)
+    pure ("|".intercalate [showIdx p.nonrf, showIdx p.rf, showIdx p.rb, showIdx p.el,
+      showIdx p.rb', showIdx p.el', showIdx (coefRb p), if slicesFlag p then "1" else "0"])
+  | [] => none
+
+instance : CplxOps CF Float := ⟨CF.re, CF.im, fun x => ⟨x, 0⟩⟩
+instance : Zero CF := ⟨⟨0, 0⟩⟩
+
+def readCF (ws : List String) (cnt : Nat) : Option (Array CF × List String) := do
+  let (l, rest) ← takeN fbits (2 * cnt) ws
+  let a := l.toArray
+  pure ((Array.range cnt).map (fun i => (⟨a.getD (2 * i) 0, a.getD (2 * i + 1) 0⟩ : CF)), rest)
+
+def showRows {n : Nat} (nt : Nat) (samples : Array (Fin n → Float)) : String :=
+  " ".intercalate ((List.finRange n).flatMap fun j =>
+    (List.range nt).map fun t => showF ((samples.getD t fun _ => 0) j))
+
+/-- the elastic part of `_solve_complex_unc` (real system) from the implementation's own `pc` -/
+def doCpl (ws : List String) : Option String := do
+  match ws with
+  | os :: hs :: ns :: Ns :: rest =>
+    let order1 ← match os with | "1" => some true | "0" => some false | _ => none
+    let h ← fbits hs
+    let n ← ns.toNat?
+    let N ← Ns.toNat?
+    let (lam, rest) ← readCF rest N
+    let (urV, rest) ← readCF rest (n * N)
+    let (urD, rest) ← readCF rest (n * N)
+    let (invV, rest) ← readCF rest (N * n)
+    let (invD, rest) ← readCF rest (N * n)
+    let (d0, rest) ← takeN fbits n rest
+    let (v0, rest) ← takeN fbits n rest
+    let (nt, rest) ← match rest with | s :: r => s.toNat?.map fun x => (x, r) | [] => none
+    let (fl, rest) ← takeN fbits (n * nt) rest
+    if !rest.isEmpty then none
+    let z : CF := ⟨0, 0⟩
+    let e : Eig CF n N :=
+      { lam := fun k => lam.getD k.val z
+        urV := fun j k => urV.getD (j.val * N + k.val) z
+        urD := fun j k => urD.getD (j.val * N + k.val) z
+        invV := fun k j => invV.getD (k.val * n + j.val) z
+        invD := fun k j => invD.getD (k.val * n + j.val) z }
+    let fa := fl.toArray
+    let imf : List (Fin n → Float) := (List.range nt).map fun t => fun j => fa.getD (j.val * nt + t) 0
+    let isSmall : CF → Bool := fun l => Float.sqrt (l.re * l.re + l.im * l.im) < 5.0e-5
+    let d0a := d0.toArray
+    let v0a := v0.toArray
+    let out := (coupledRun order1 isSmall (⟨h, 0⟩ : CF) e (fun j => d0a.getD j.val 0)
+      (fun j => v0a.getD j.val 0) imf).toArray
+    pure ("ok " ++ showRows nt (out.map (·.1)) ++ " " ++ showRows nt (out.map (·.2)))
+  | _ => none
+
+/-- the rigid-body loop of `_solve_complex_unc`, one mode (force already divided by the mass) -/
+def doRbRun (ws : List String) : Option String := do
+  match ws with
+  | os :: hs :: nts :: d0s :: v0s :: rest =>
+    let order1 ← match os with | "1" => some true | "0" => some false | _ => none
+    let h ← fbits hs
+    let nt ← nts.toNat?
+    let d0 ← fbits d0s
+    let v0 ← fbits v0s
+    let (f, rest) ← takeN fbits nt rest
+    if !rest.isEmpty then none
+    let rec go : List Float → Float × Float → List (Float × Float)
+      | [], _ => []
+      | [_], dv => [dv]
+      | f0 :: f1 :: fs, dv => dv :: go (f1 :: fs) (rbStep order1 h dv f0 f1)
+    let hist := go f (d0, v0)
+    pure ("ok " ++ " ".intercalate ((hist.map Prod.fst ++ hist.map Prod.snd).map showF))
+  | _ => none
+
+/-- the loop of `SolveExp2.tsolve` from the implementation's own `E, P, Q` -/
+def doExp2 (ws : List String) : Option String := do
+  match ws with
+  | os :: ns :: rest =>
+    let order1 ← match os with | "1" => some true | "0" => some false | _ => none
+    let n ← ns.toNat?
+    let (E, rest) ← takeN fbits (4 * n * n) rest
+    let (P, rest) ← takeN fbits (2 * n * n) rest
+    let (Q, rest) ← if order1 then takeN fbits (2 * n * n) rest else some ([], rest)
+    let (d0, rest) ← takeN fbits n rest
+    let (v0, rest) ← takeN fbits n rest
+    let (nt, rest) ← match rest with | s :: r => s.toNat?.map fun x => (x, r) | [] => none
+    let (fl, rest) ← takeN fbits (n * nt) rest
+    if !rest.isEmpty then none
+    let Ea := E.toArray
+    let Pa := P.toArray
+    let Qa := Q.toArray
+    let c : ExpCoef Float n :=
+      { Evv := fun i j => Ea.getD (i.val * (2 * n) + j.val) 0
+        Evd := fun i j => Ea.getD (i.val * (2 * n) + (n + j.val)) 0
+        Edv := fun i j => Ea.getD ((n + i.val) * (2 * n) + j.val) 0
+        Edd := fun i j => Ea.getD ((n + i.val) * (2 * n) + (n + j.val)) 0
+        Pv := fun i j => Pa.getD (i.val * n + j.val) 0
+        Pd := fun i j => Pa.getD ((n + i.val) * n + j.val) 0
+        Qv := fun i j => Qa.getD (i.val * n + j.val) 0
+        Qd := fun i j => Qa.getD ((n + i.val) * n + j.val) 0 }
+    let fa := fl.toArray
+    let imf : List (Fin n → Float) := (List.range nt).map fun t => fun j => fa.getD (j.val * nt + t) 0
+    let d0a := d0.toArray
+    let v0a := v0.toArray
+    let out := (runExp order1 c (fun j => d0a.getD j.val 0, fun j => v0a.getD j.val 0) imf).toArray
+    pure ("ok " ++ showRows nt (out.map (·.1)) ++ " " ++ showRows nt (out.map (·.2)))
+  | _ => none
+
 /-- the uncoupled real path of `SolveUnc(m, b, k, h, rb, rf, order).tsolve(force, d0, v0, static_ic)` -/
 def doSys (ws : List String) : Option String := do
   match ws with
@@ -143,7 +268,7 @@ def doSys (ws : List String) : Option String := do
     -- partition bookkeeping
     let nr := nonrf n rf
     let p := mkPart n rb rf fun i => match nr[i]? with
-      | some g => Float.abs (getF k g) < 0.005
+      | some g => smallUnc Float.abs 0 k 0.005 g
       | none => false
     -- get_su_coef(self.m, self.b, self.k, h, self.rb) on the non-rf partitions
     match pvrbOf nr.length (coefRb p) with
@@ -156,11 +281,11 @@ def doSys (ws : List String) : Option String := do
       if regs.any Option.isNone then pure "err:partition" else
       let zero : List Float := List.replicate nt 0
       -- static initial conditions: `static_ic and self.elsize and F0[self.el].any()`
-      let useStatic := d0.isNone && static && p.el.any fun g => getF (force g) 0 != 0
+      let useSt := useStatic static d0.isSome (p.el.map fun g => getF (force g) 0)
       let rows : List (List Float × List Float × List Float) := (List.range n).map fun g =>
         if rf.contains g then
           -- d[rf] = ikrf * force[rf], ikrf = 1.0 / krf
-          ((force g).map fun f => (1.0 / getF k g) * f, zero, zero)
+          ((force g).map fun f => rfRow (getF k g) f, zero, zero)
         else
           match nr.idxOf? g with
           | none => (zero, zero, zero)
@@ -168,12 +293,9 @@ def doSys (ws : List String) : Option String := do
             let mo : Option Float := m.map fun mv => getF mv g
             let r := (regs.getD i none).getD .rigid
             let c := suCoefOpt r mo (getF b g) (getF k g) h
-            let dInit : Float := match d0 with
-              | some dv => getF dv g
-              | none => if useStatic && p.el.contains g then getF (force g) 0 / getF k g else 0
-            let vInit : Float := match v0 with
-              | some vv => getF vv g
-              | none => 0
+            let dInit : Float := initD (d0.map fun dv => getF dv g) useSt (p.el.contains g) (getF k g)
+              (getF (force g) 0)
+            let vInit : Float := initV (v0.map fun vv => getF vv g)
             let hist := runUnc order1 c (dInit, vInit) (force g)
             let d := hist.map Prod.fst
             let v := hist.map Prod.snd
@@ -193,6 +315,10 @@ def answer (line : String) : String :=
     | "cplx" :: ws => doCplx ws
     | "part" :: ws => doPart ws
     | "sys" :: ws => doSys ws
+    | "partc" :: ws => doPartC ws
+    | "cpl" :: ws => doCpl ws
+    | "rbrun" :: ws => doRbRun ws
+    | "exp2" :: ws => doExp2 ws
     | _ => none
   r.getD "bad-op"
 
